@@ -52,7 +52,7 @@ def env_for(part):
     env["VOTCASHARE"] = REPO + "/csg/share"  # scripts/xml are read from the working tree
     env.setdefault("ASAN_OPTIONS", "detect_leaks=0:abort_on_error=0:exitcode=97")
     env.setdefault("UBSAN_OPTIONS", "print_stacktrace=1:halt_on_error=1:exitcode=97")
-    env.update(part.get("env", {}))
+    env.update({k: v.replace("{BUILD}", BUILD) for k, v in part.get("env", {}).items()})
     return env
 
 
